@@ -788,7 +788,8 @@ class Gen:
         name = self.fresh()
         shadowed = None
         if self.f["block_shadow"] and self.block_depth > 0 and self.chance(0.3):
-            outer = [n for n, d in sc.vars() if d["t"] == t and not d["owned"] and n.startswith("v")]
+            cur = sc.frames[-1]     # a second `let` of a name in the SAME block is not shadowing (and natively a C redefinition)
+            outer = [n for n, d in sc.vars() if n not in cur and d["t"] == t and not d["owned"] and n.startswith("v")]
             if outer:
                 name = shadowed = r.choice(outer)
                 self.tag("block.shadow")
